@@ -6,6 +6,7 @@ package main
 // branches of the long-lived finalize context, so one process can run many histories.
 
 import (
+	errorsmod "cosmossdk.io/errors"
 	"encoding/json"
 	"fmt"
 	"runtime/debug"
@@ -337,6 +338,22 @@ type TxResult struct {
 	Panic  string
 	Stack  string
 	Events []abci.Event
+	// registered error identity (codespace, code) of Err when it has one: classification prefers it to the
+	// message text, so that a reworded message of the module does not change a verdict
+	Codespace string
+	Code      uint32
+}
+
+// IsErr reports whether the result failed with the registered error (codespace, code), or - for errors that
+// lost their identity through plain wrapping - with a message containing text.
+func (r TxResult) IsErr(codespace string, code uint32, text string) bool {
+	if r.OK {
+		return false
+	}
+	if r.Codespace == codespace && r.Code == code && code != 1 {
+		return true
+	}
+	return text != "" && strings.Contains(r.Err+r.Panic, text)
 }
 
 func (r TxResult) String() string {
@@ -369,7 +386,8 @@ func (w *World) RunMsgOn(ctx sdk.Context, msg sdk.Msg, commit bool) (res TxResul
 	}
 	r, err := h(cctx, msg)
 	if err != nil {
-		return TxResult{Err: err.Error()}
+		cs, code, _ := errorsmod.ABCIInfo(err, false)
+		return TxResult{Err: err.Error(), Codespace: cs, Code: code}
 	}
 	if commit {
 		write()
